@@ -53,17 +53,17 @@ example : noHide [.decl 0 true, .enter, .decl 0 false, .decl 0 false, .leave, .u
 /-- **Refinement, token level**: the ids written to all name tokens (declarations, uses, `::x` uses, enumerators) equal
 those of the stack-of-scopes specification, for every event list whose `::x` part is well formed and in which no
 enumerator hides a visible variable. -/
-theorem run_eq_srun (ops : List Op) (h : globalOK 0 [] ops = true) (hv : noVarHidden Spec.init ops = true) :
+theorem run_eq_srun_partial (ops : List Op) (h : globalOK 0 [] ops = true) (hv : noVarHidden Spec.init ops = true) :
     run VarMap.init ops = srun Spec.init ops :=
   run_refines_aux ops VarMap.init Spec.init [] Rel_init (fun x hx => by simp [Spec.init, vl] at hx) trivial
     (fun x hx => by simp at hx) h hv
 
 /-- without `::x` (every C program) the first hypothesis disappears -/
-theorem run_eq_srun_of_noGuse (ops : List Op) (h : noGuse ops = true) (hv : noVarHidden Spec.init ops = true) :
+theorem run_eq_srun_of_noGuse_partial (ops : List Op) (h : noGuse ops = true) (hv : noVarHidden Spec.init ops = true) :
     run VarMap.init ops = srun Spec.init ops :=
   noGuse_run ops _ _ Rel_init h hv
 
-/-- the `::x` hypothesis of `run_eq_srun` cannot be dropped: a parameter named `a` (declared while
+/-- the `::x` hypothesis of `run_eq_srun_partial` cannot be dropped: a parameter named `a` (declared while
 `scopeStack.size() <= 1`) is entered into `mVariableId_global`, so a later `::a` with no file-scope `a` (not a valid
 program) is linked to it -/
 theorem run_guse_undeclared_counterexample :
@@ -85,7 +85,7 @@ gives it. Unbounded nesting, any number of functions, any shadowing / re-declara
 declarations of one name in one scope, and variables that shadow enumerators). -/
 theorem resolve_eq_spec_partial (p : Prog) (h : progOK [] p = true) (hv : noEnumHidesVar p = true) :
     resolve p = specProg p := by
-  have h1 := run_eq_srun (implProg p) (globalOK_implProg p [] h) hv
+  have h1 := run_eq_srun_partial (implProg p) (globalOK_implProg p [] h) hv
   have h2 := srun_implProg p [] 0
   simpa [resolve, specProg, Spec.init] using h1.trans h2
 
